@@ -233,7 +233,13 @@ func one(scn int, sc Scenario, probe string, w *rec.Writer) error {
 	time.Sleep(20 * time.Millisecond)
 	for _, e := range sc.Entries {
 		if pid, ok := pids[e.Name]; ok {
-			add("after.stop", "name", e.Name, "state", procState(pid))
+			// a dropped plugin is stopped by a goroutine of its own: on a loaded machine the kill may still be on its
+			// way; a process that is never killed is still there after two seconds
+			st := procState(pid)
+			for dl := time.Now().Add(2 * time.Second); st != "gone" && st != "Z" && time.Now().Before(dl); st = procState(pid) {
+				time.Sleep(20 * time.Millisecond)
+			}
+			add("after.stop", "name", e.Name, "state", st)
 		}
 	}
 	add("End")
